@@ -118,6 +118,7 @@ class FilterDriver(explore.Driver):
                 out.append((["limit", lim], 0))
         for i in (0, 3):
             out.append((["manual", i], 0))
+        out.append((["manual_set", 1], 1))
         out.append((["reset"], 1))
         return out
 
@@ -162,6 +163,11 @@ class FilterDriver(explore.Driver):
             cfg["limit events"] = op[1]
         elif kind == "manual":
             ds.filter.manual[op[1]] = not ds.filter.manual[op[1]]
+        elif kind == "manual_set":
+            # the array is replaced, not edited in place
+            new = np.array(ds.filter.manual, dtype=bool, copy=True)
+            new[op[1]] = not new[op[1]]
+            ds.filter.manual = new
         elif kind == "reset":
             ds.reset_filter()
         elif kind == "nop":
